@@ -669,6 +669,11 @@ class C15:
             if rng.chance(1, 3):
                 hs.insert(rng.below(3), rng.pick([(b"Content-Range", b"bytes 0-1/2"), (b"content-range", b"bytes */100"), (b"Content-Type", b"application/gzip"), (b"Content-Type", b"application/x-gzip; x=y"),
                                                   (b"Transfer-Encoding", b"gzip"), (b"Content-Length", b"5"), (b"Vary", b"Accept-Encoding"), (b"Accept-Ranges", b"bytes"), (b"Connection", b"close")]))
+            elif rng.chance(1, 2):
+                # real-world fields, among them a Content-Range that calls the body the leading part of something longer:
+                # a truncated coded body is damaged all the same (eleventh round)
+                for f in gen.realistic_fields(rng, rng.randint(0, 2), coded_len=len(enc)):
+                    hs.insert(rng.below(len(hs) + 1), f)
             meta = {"kind": kind, "data": data.hex(), "enc": enc.hex(), "layer": str(linfo), "hlen": linfo.get("hlen")}
             g = Group("t%d" % k, "damage-" + kind, meta)
             g.add("intact", "DECODE %d %s %s" % (tree, hdrs_field(hs), hx(enc)))
@@ -698,6 +703,24 @@ class C15:
                 c = rng.below(len(enc))
                 outer, _ = encode_layer(rng, "gzip", enc[:c])
                 g.add("truncated-inner", "DECODE %d %s %s" % (tree, hdrs_field([(b"Content-Encoding", tok + b", gzip")]), hx(outer)), {"cut": c})
+            # damage to the inner layer of a stack, the outer layer intact: the inner signature altered, the inner stream cut to
+            # nothing / one byte / short of its check (eleventh round: a repeated `gzip` forgiven when the inner bytes did not
+            # look like gzip)
+            if kind != "raw" and rng.chance(1, 2):
+                for okind in ("gzip", "zlib"):
+                    inner_variants = [("cut", 0), ("cut", 1), ("cut", 2), ("cut", len(enc) - 1), ("cut", len(enc) - 4)] + [("byte", 0), ("byte", 1)] + ([("byte", len(enc) - 1)] if kind != "raw" else [])
+                    for what, pos in inner_variants:
+                        if what == "cut":
+                            if not (0 <= pos < len(enc)):
+                                continue
+                            inner = enc[:pos]
+                        else:
+                            inner = enc[:pos] + bytes([enc[pos] ^ 0x40]) + enc[pos + 1:]
+                        outer, _ = encode_layer(rng, okind, inner)
+                        if what == "cut":
+                            g.add("truncated-inner", "DECODE %d %s %s" % (tree, hdrs_field([(b"Content-Encoding", tok + b", " + TOKEN_OF[okind])]), hx(outer)), {"cut": pos})
+                        else:
+                            g.add("field", "DECODE %d %s %s" % (tree, hdrs_field([(b"Content-Encoding", tok + b", " + TOKEN_OF[okind])]), hx(outer)), {"pos": pos, "v": enc[pos] ^ 0x40})
             groups.append(g)
         from . import srcdict
         for k3, size in enumerate(sorted(set(([16_777_216, 16_877_216] if tier == "quick" else [8_388_608, 16_777_216, 16_877_216, 33_554_432]) + [v + d for v in srcdict.load()["big"] for d in (0, 100_000)]))):
@@ -918,6 +941,8 @@ def gen_content_type(rng):
     label = rng.pick(UTF8_LABELS) if k < 3 else rng.pick(LATIN1_LABELS) if k < 6 else rng.pick(UNKNOWN_LABELS) if k < 8 else rng.pick(OTHER_LABELS)
     label = gen.randcase(rng, label)
     label = rng.pick([b"", b"", b" ", b"\t", b"\n"]) + label + rng.pick([b"", b"", b" ", b"\x0c"])
+    if rng.chance(1, 8):
+        label = rng.pick([b'"' + label + b'"', b'"' + label, b"'" + label + b"'", b'"' + label + b'" '])      # a quoted value is not unquoted by the crate
     params = []
     for _ in range(rng.below(3)):
         params.append(rng.pick([b"x=y", b"q=0.5", b"boundary=abc", b"charset", b"=", b"", b"xcharset=utf-8", b"charset-x=utf-8", b"format=flowed",
@@ -966,6 +991,12 @@ def gen_text_case(rng):
         hs.append((gen.randcase(rng, b"Content-Type"), gen_content_type(rng)))
         if rng.chance(1, 25):
             hs.append((b"Content-Type", b"text/plain"))
+    if rng.chance(1, 3):
+        # fields that have no say in text decoding, among them a Content-Encoding that `decode_body` left in place
+        for _ in range(rng.randint(1, 2)):
+            f = rng.pick(gen.REALISTIC_FIELDS + [(b"Content-Encoding", b"br"), (b"Content-Encoding", b"gzip"), (b"content-encoding", b"identity"), (b"Transfer-Encoding", b"chunked"), (b"Content-Length", b"0")])
+            if f[0].lower() != b"content-type":
+                hs.insert(rng.below(len(hs) + 1), f)
     k = rng.below(8)
     if k < 3:
         body = rng.pick(VALID_UTF8) + (rng.pick(VALID_UTF8) if rng.chance(1, 2) else b"")
